@@ -36,7 +36,7 @@ import time
 
 import z3
 
-from contracts import caseless, od
+from contracts import caseless, comp, od
 from contracts import dt as dtc
 from vc import common
 from vc.common import Obligation, Bounded, PROVED, REFUTED, UNDECIDED, ERROR
@@ -696,7 +696,7 @@ class EncodeEngine:
         def for_property(engine, st, args, kw):
             nm = engine.unbox_known(args[1], st)
             return [(st, E.VRef(klass_of(nm.z)))]
-        eng.contracts["TypesFactory.for_property"] = for_property
+        eng.contracts["TypesFactory.for_property"] = comp.exact_arity(for_property, 2, "types_factory.for_property(name)")
 
         def call_ref(engine, st, args, kw):
             k, val = args[0], args[1]
@@ -1105,9 +1105,9 @@ def table_obligations(rep, tier):
         if row.get("list") and row["default"] in ("DATE-TIME",) and cls != "vDDDLists":
             bad.append(f"{name}: a list of {row['default']} needs vDDDLists, found {cls}")
     ob = ob_from(f"{PID}.T.every_RFC_5545_property_name_is_decoded_with_its_value_type", fn, None,
-                 PROVED if not bad and fp_ok else REFUTED,
+                 PROVED if not bad and fp_ok else (REFUTED if bad else UNDECIDED),
                  f"{len(spec['properties'])} property names checked against spec/rfc5545_properties.json; for_property = self[types_map.get(name, 'text')]"
-                 if not bad and fp_ok else "; ".join(bad[:4]) or "for_property no longer reads types_map with default 'text'", backend="fin")
+                 if not bad and fp_ok else "; ".join(bad[:4]) or "for_property is no longer exactly `return self[self.types_map.get(name, 'text')]`: outside the statement shape (the stand-in decides)", backend="fin")
     ob.witness_names = bad
     obs.append(ob)
     # alternatives: the constructor contracts (V1, V2, V3, E) give the VALUE parameter for every permitted non-default type
